@@ -17,14 +17,21 @@ Qed.
 Lemma Rgtb_dec x y : (y < x /\ Rgtb x y = true) \/ (x <= y /\ Rgtb x y = false).
 Proof. destruct (Rlt_le_dec y x). left; split; auto; apply Rgtb_true; auto. right; split; auto; apply Rgtb_false; auto. Qed.
 
+Lemma omax_R a b : omax RO a b = Rmax a b.
+Proof.
+  unfold omax, o2. simpl. unfold Rmax. destruct (Rle_dec a b).
+  - rewrite Rabs_left1 by lra. lra.
+  - rewrite Rabs_right by lra. lra.
+Qed.
+
 Lemma cnz_ind_cases (z : Cx) : (z = 0c /\ cnz_ind RO z = 0) \/ (z <> 0c /\ cnz_ind RO z = 1).
 Proof.
-  destruct z as [x y]. unfold cnz_ind, omax, ind. simpl fst; simpl snd.
-  destruct (nz_dec x) as [[-> ->]|[Hx ->]]; destruct (nz_dec y) as [[-> ->]|[Hy ->]]; simpl.
-  - left. split; auto. destruct (Rgtb_dec 0 0) as [[? ->]|[? ->]]; lra.
-  - right. split. intros E; inversion E; auto. destruct (Rgtb_dec 0 1) as [[? ->]|[? ->]]; lra.
-  - right. split. intros E; inversion E; auto. destruct (Rgtb_dec 1 0) as [[? ->]|[? ->]]; lra.
-  - right. split. intros E; inversion E; auto. destruct (Rgtb_dec 1 1) as [[? ->]|[? ->]]; lra.
+  destruct z as [x y]. unfold cnz_ind. rewrite omax_R. unfold ind. simpl fst; simpl snd.
+  destruct (nz_dec x) as [[-> ->]|[Hx ->]]; destruct (nz_dec y) as [[-> ->]|[Hy ->]]; simpl; unfold Rmax.
+  - left. split; auto. destruct (Rle_dec 0 0); lra.
+  - right. split. intros E; inversion E; auto. destruct (Rle_dec 0 1); lra.
+  - right. split. intros E; inversion E; auto. destruct (Rle_dec 1 0); lra.
+  - right. split. intros E; inversion E; auto. destruct (Rle_dec 1 1); lra.
 Qed.
 
 Lemma cnz_ind_zero z : cnz_ind RO z = 0 <-> z = 0c.
@@ -173,7 +180,10 @@ Proof.
 Qed.
 
 Lemma Forall_tind l : Forall (fun Cm => tind Cm = 0) l <-> Forall (fun Cm => ~ tr_nonzero Cm) l.
-Proof. split; intros H; eapply Forall_impl; try exact H; intros a; apply tind_zero. Qed.
+Proof.
+  split; intros H; induction H; constructor; auto.
+  apply (proj1 (tind_zero x)); auto. apply (proj2 (tind_zero x)); auto.
+Qed.
 
 (* the repaired behaviour: traceless iff all (cleaned) traces vanish, or exactly one element has a
    non-zero trace and that element has constant diagonal and NO non-zero off-diagonal entry *)
@@ -200,24 +210,176 @@ Proof.
     destruct (Rgtb_dec 1 (1/2)) as [[? ->]|[? ->]]; try lra.
     rewrite Hbs at 1. rewrite (sumlist_weighted tind _ pre Cm post Hp Hq Hx).
     destruct (Rgtb_dec (offdiag_count RO d Cm + diag_unequal_count RO d Cm) (1/2)) as [[Hw ->]|[Hw ->]].
-    + split. intros H. apply Rgtb_false in H. lra.
+    + split. intros HH. apply Rgtb_false in HH. lra.
       intros [Hall|(pre' & C' & post' & Hbs' & Hp' & Hq' & Hx' & Hsc')].
       * apply Forall_tind in Hall. rewrite (sumlist_zero tind bs Hall) in Hs. lra.
       * exfalso. (* the decomposition is unique: the sum is 1 either way, and the scalar element would have small count *)
         assert (Hw' : offdiag_count RO d C' + diag_unequal_count RO d C' <= 1 / 2) by (apply bad_small_scalar; auto).
         assert (Heq : sumlist RO (map (fun Cm => tind Cm * (offdiag_count RO d Cm + diag_unequal_count RO d Cm)) bs) =
                       offdiag_count RO d C' + diag_unequal_count RO d C').
-        { rewrite Hbs'. apply sumlist_weighted. apply Forall_tind; auto. apply Forall_tind; auto. apply tind_one; auto. }
+        { rewrite Hbs'. apply (sumlist_weighted tind (fun Cm => offdiag_count RO d Cm + diag_unequal_count RO d Cm)). apply Forall_tind; auto. apply Forall_tind; auto. apply tind_one; auto. }
         rewrite Hbs in Heq at 1. rewrite (sumlist_weighted tind _ pre Cm post Hp Hq Hx) in Heq. lra.
     + split. intros _. right. exists pre, Cm, post. repeat split; auto.
       apply Forall_tind; auto. apply Forall_tind; auto. apply tind_one; auto.
       apply bad_small_scalar; auto. apply bad_small_scalar; auto.
       intros _. apply Rgtb_false. lra.
   - destruct (Rgtb_dec (sumlist RO (map tind bs)) (3/2)) as [[? ->]|[? ->]]; try lra.
-    split. intros H. apply Rgtb_false in H. lra.
+    split. intros HH. apply Rgtb_false in HH. lra.
     intros [Hall|(pre' & C' & post' & Hbs' & Hp' & Hq' & Hx' & Hsc')].
     + apply Forall_tind in Hall. rewrite (sumlist_zero tind bs Hall) in Hs. lra.
     + rewrite Hbs' in Hs. rewrite (sumlist_one tind pre' C' post') in Hs. lra.
       apply Forall_tind; auto. apply Forall_tind; auto. apply tind_one; auto.
 Qed.
 End Traceless.
+
+(* ------------------------------------------------------------------ the pre-fix test differs *)
+From Interval Require Import Tactic.
+
+Definition witC : Mat (T:=R) := [[(1, 0); (5, 0)]; [(0, 0); (1, 0)]].
+Definition witX : Mat (T:=R) := [[(0, 0); (1, 0)]; [(1, 0); (0, 0)]].
+
+Lemma atol_trace2_small : atol_trace RO 2 < 1.
+Proof. unfold atol_trace, oeps, onat, oZ. simpl. unfold Rdya. simpl Z.of_nat. interval. Qed.
+Lemma atol_trace2_nonneg : 0 <= atol_trace RO 2.
+Proof. unfold atol_trace, oeps, onat, oZ. simpl. unfold Rdya. simpl Z.of_nat. interval. Qed.
+
+Lemma witC_trace : tr_clean RO 2 witC = (2, 0).
+Proof.
+  unfold tr_clean. pose proof atol_trace2_small as HA1. pose proof atol_trace2_nonneg as HA0.
+  revert HA1 HA0. generalize (atol_trace RO 2). intros A HA1 HA0.
+  unfold crfe, rfe, mtrace, witC. simpl csumn. unfold mget. simpl nth. simpl fst. simpl snd.
+  simpl oadd. simpl oabs. simpl ogt. simpl oite. simpl o0.
+  replace (0 + 1 + 1) with 2 by ring. replace (0 + 0 + 0) with 0 by ring.
+  destruct (Rgtb_dec (Rabs 2) A) as [[_ ->]|[H _]].
+  2:{ rewrite Rabs_right in H by lra. lra. }
+  destruct (Rgtb_dec (Rabs 0) A) as [[H _]|[_ ->]].
+  rewrite Rabs_R0 in H. lra. reflexivity.
+Qed.
+Lemma witX_trace : tr_clean RO 2 witX = 0c.
+Proof.
+  unfold tr_clean. pose proof atol_trace2_small as HA1. pose proof atol_trace2_nonneg as HA0.
+  revert HA1 HA0. generalize (atol_trace RO 2). intros A HA1 HA0.
+  unfold crfe, rfe, mtrace, witX. simpl csumn. unfold mget. simpl nth. simpl fst. simpl snd.
+  simpl oadd. simpl oabs. simpl ogt. simpl oite. simpl o0.
+  replace (0 + 0 + 0) with 0 by ring.
+  destruct (Rgtb_dec (Rabs 0) A) as [[H _]|[_ ->]].
+  rewrite Rabs_R0 in H. lra. reflexivity.
+Qed.
+
+Lemma witC_nonzero : tr_nonzero 2 witC.
+Proof. unfold tr_nonzero. rewrite witC_trace. intros E. inversion E. lra. Qed.
+Lemma witX_zero : ~ tr_nonzero 2 witX.
+Proof. unfold tr_nonzero. rewrite witX_trace. intros E. apply E. reflexivity. Qed.
+
+(* the repaired test: [[1,5],[0,1]] together with sigma_x is NOT traceless *)
+Lemma wit_repaired : istraceless_viol RO 2 [witC; witX] = true.
+Proof.
+  destruct (istraceless_viol RO 2 [witC; witX]) eqn:E; auto. exfalso.
+  apply istraceless_meaning in E. destruct E as [Hall|(pre & Cm & post & Hbs & Hp & Hq & Hx & [Hoff _])].
+  - inversion Hall; subst. apply H1. apply witC_nonzero.
+  - destruct pre as [|p0 pre].
+    + simpl in Hbs. inversion Hbs; subst. specialize (Hoff 0%nat 1%nat ltac:(lia) ltac:(lia) ltac:(lia)).
+      unfold mget, witC in Hoff. simpl in Hoff. inversion Hoff. lra.
+    + simpl in Hbs. inversion Hbs; subst. apply (Forall_inv Hp). apply witC_nonzero.
+Qed.
+
+(* the test of the pinned revision (index values of the non-zero off-diagonal entries) accepts it *)
+Lemma wit_prefix : istraceless_viol_prefix RO 2 [witC; witX] = false.
+Proof.
+  unfold istraceless_viol_prefix, istraceless_viol_val_prefix, n_nonzero_traces, bad_count_prefix.
+  cbn [map sumlist].
+  assert (H1 : cnz_ind RO (tr_clean RO 2 witC) = 1) by (apply (tind_one 2 witC), witC_nonzero).
+  assert (H0 : cnz_ind RO (tr_clean RO 2 witX) = 0) by (apply (tind_zero 2 witX), witX_zero).
+  rewrite H1, H0.
+  assert (Hp : prefix_offdiag_any RO 2 witC = 0).
+  { unfold prefix_offdiag_any, offdiag_flat, witC. simpl.
+    destruct (Rgtb_dec (Rabs 0) 0) as [[H _]|[_ ->]]. rewrite Rabs_R0 in H; lra.
+    replace (0 - 0) with 0 by ring. rewrite Rabs_R0. lra. }
+  assert (Hd : diag_unequal_count RO 2 witC = 0).
+  { unfold diag_unequal_count, witC. simpl sumn. unfold mget. simpl nth. unfold csub. simpl fst. simpl snd. simpl osub.
+    replace (1 - 1) with 0 by ring. replace (0 - 0) with 0 by ring.
+    destruct (Rgtb_dec (Rabs 0) 0) as [[H _]|[_ ->]]. rewrite Rabs_R0 in H; lra.
+    replace (0 - 0) with 0 by ring. rewrite Rabs_R0. lra. }
+  rewrite Hp, Hd. simpl ogt. simpl oite. simpl oadd. simpl omul. simpl o1. simpl o0. unfold half, o2. simpl odiv. simpl oadd. simpl o1.
+  replace (1 + (0 + 0)) with 1 by ring. replace (1 * (0 + 0) + (0 * (prefix_offdiag_any RO 2 witX + diag_unequal_count RO 2 witX) + 0)) with 0 by ring.
+  destruct (Rgtb_dec 1 (1 + 1 / (1 + 1))) as [[? _]|[_ ->]]. lra.
+  destruct (Rgtb_dec 1 (1 / (1 + 1))) as [[_ ->]|[? _]]. 2: lra.
+  destruct (Rgtb_dec 0 (1 / (1 + 1))) as [[? _]|[_ ->]]. lra.
+  apply Rgtb_false. lra.
+Qed.
+
+Theorem istraceless_prefix_refuted :
+  exists bs : list (Mat (T:=R)), istraceless_viol RO 2 bs = true /\ istraceless_viol_prefix RO 2 bs = false.
+Proof. exists [witC; witX]. split. apply wit_repaired. apply wit_prefix. Qed.
+
+(* ------------------------------------------------------------------ isherm / isorthonorm *)
+Lemma maxlist_le t l : 0 <= t -> (maxlist RO l <= t <-> Forall (fun x => x <= t) l).
+Proof.
+  intros Ht. induction l.
+  - simpl. split; auto.
+  - change (maxlist RO (a :: l)) with (omax RO a (maxlist RO l)). rewrite omax_R. split.
+    + intros H. constructor. eapply Rle_trans; [apply Rmax_l|exact H]. apply IHl. eapply Rle_trans; [apply Rmax_r|exact H].
+    + intros H. inversion H; subst. apply Rmax_lub; auto. apply IHl; auto.
+Qed.
+
+Lemma Forall_build {A} (P : A -> Prop) n (f : nat -> A) : Forall P (build n f) <-> forall i, (i < n)%nat -> P (f i).
+Proof.
+  unfold build. rewrite Forall_map, Forall_forall. split.
+  - intros H i Hi. apply H. apply in_seq. lia.
+  - intros H i Hi. apply in_seq in Hi. apply H. lia.
+Qed.
+
+Lemma oeps_nonneg : 0 <= oeps RO.
+Proof. unfold oeps. simpl. unfold Rdya. interval. Qed.
+Lemma onat_nonneg n : 0 <= onat RO n.
+Proof. unfold onat, oZ. simpl. unfold Rdya. simpl powerRZ. rewrite Rmult_1_r, <- INR_IZR_INZ. apply pos_INR. Qed.
+Lemma atol_basis_nonneg d : 0 <= atol_basis RO d.
+Proof. unfold atol_basis. simpl omul. apply Rmult_le_pos. apply oeps_nonneg. apply onat_nonneg. Qed.
+Lemma atol_orth_nonneg d : 0 <= atol_orth RO d.
+Proof. unfold atol_orth. simpl omul. apply Rmult_le_pos. apply oeps_nonneg. apply onat_nonneg. Qed.
+
+(* isherm is True iff every entry of C^dagger - C is within eps d^3 in modulus *)
+Theorem isherm_meaning d bs :
+  isherm_viol RO d bs = false <->
+  forall Cm, In Cm bs -> forall a b, (a < d)%nat -> (b < d)%nat ->
+    cabs RO (csub' (cconj' (mget RO Cm b a)) (mget RO Cm a b)) <= atol_basis RO d.
+Proof.
+  unfold isherm_viol. simpl ogt. rewrite Rgtb_false. unfold herm_residual.
+  rewrite (maxlist_le _ _ (atol_basis_nonneg d)).
+  rewrite Forall_concat, Forall_map, Forall_forall.
+  split.
+  - intros H Cm HC a b Ha Hb. specialize (H Cm HC). rewrite Forall_concat, Forall_build in H.
+    specialize (H a Ha). rewrite Forall_build in H. apply H; auto.
+  - intros H Cm HC. rewrite Forall_concat, Forall_build. intros a Ha. rewrite Forall_build. intros b Hb. apply H; auto.
+Qed.
+
+(* isorthonorm is True iff there is a single element, or every entry of the Gram matrix
+   <C_i, C_j> - delta_ij is within eps (d^2)^3 in modulus *)
+Theorem isorthonorm_meaning d bs :
+  isorthonorm_viol RO d bs = false <->
+  length bs = 1%nat \/
+  forall i j, (i < length bs)%nat -> (j < length bs)%nat ->
+    cabs RO (csub' (gram RO d bs i j) (if (i =? j)%nat then 1c else 0c)) <= atol_orth RO d.
+Proof.
+  unfold isorthonorm_viol. simpl ogt. rewrite Rgtb_false.
+  destruct (Nat.eqb_spec (length bs) 1) as [E|E].
+  - split. auto. intros _. simpl. apply atol_orth_nonneg.
+  - unfold orth_residual. rewrite (maxlist_le _ _ (atol_orth_nonneg d)).
+    rewrite Forall_concat, Forall_build. split.
+    + intros H. right. intros i j Hi Hj. specialize (H i Hi). rewrite Forall_build in H. apply H; auto.
+    + intros [H|H]. contradiction. intros i Hi. rewrite Forall_build. intros j Hj. apply H; auto.
+Qed.
+
+(* remove_float_errors / tidyup change a component by at most the tolerance *)
+Lemma rfe_close atol x : 0 <= atol -> Rabs (rfe RO atol x - x) <= atol.
+Proof.
+  intros Ha. unfold rfe. simpl. destruct (Rgtb_dec (Rabs x) atol) as [[H ->]|[H ->]].
+  - replace (x - x) with 0 by ring. rewrite Rabs_R0. auto.
+  - replace (0 - x) with (- x) by ring. rewrite Rabs_Ropp. auto.
+Qed.
+Lemma rfe_fix atol x : atol < Rabs x \/ x = 0 -> rfe RO atol x = x.
+Proof.
+  intros [H| ->]; unfold rfe; simpl.
+  - apply Rgtb_true in H. rewrite H. reflexivity.
+  - destruct (Rgtb (Rabs 0) atol); reflexivity.
+Qed.
